@@ -143,10 +143,14 @@ def run(ctx):
                           ('DecimalConverter', 'min_val', 'max_val')):
         fn = repo.fn('pony.orm.dbapiprovider', cname + '.validate')
         g = cg.cfg(fn); recv = fn.recv
+        from ..q import alias_map, deref
+        am = alias_map(fn.node)
         for bname, ops in ((lo, (ast.Lt,)), (hi, (ast.Gt,))):
+            rops = (ast.Gt,) if ops == (ast.Lt,) else (ast.Lt,)          # `bound > val` is the same test as `val < bound`
             tests = [t for t in g.nodes if t.kind == 'test' and any(
-                isinstance(c, ast.Compare) and len(c.ops) == 1 and isinstance(c.ops[0], ops)
-                and dotted(c.comparators[0]) == '%s.%s' % (recv, bname) for c in ast.walk(t.ast))]
+                isinstance(c, ast.Compare) and len(c.ops) == 1 and (
+                    (isinstance(c.ops[0], ops) and deref(fn.node, c.comparators[0], am) == '%s.%s' % (recv, bname)) or
+                    (isinstance(c.ops[0], rops) and deref(fn.node, c.left, am) == '%s.%s' % (recv, bname))) for c in ast.walk(t.ast))]
             ok = bool(tests)
             detail = '' if ok else 'no comparison of the value with %s.%s' % (recv, bname)
             for t in tests:
@@ -194,7 +198,11 @@ def run(ctx):
         if fn.name != 'validate' or fn.cls is None or not fn.cls.name.endswith('Converter') or len(fn.params) < 2: continue
         v = fn.params[1]
         g = cg.cfg(fn)
-        tests = [t for t in g.nodes if t.kind == 'test' and any(isinstance(a, ast.Attribute) and a.attr in ('min_val', 'max_val', 'max_len') for a in t.walk())
+        from ..q import alias_map
+        am_sv = alias_map(fn.node)
+        bound_aliases = {n_ for n_, src in am_sv.items() if src.split('.')[-1] in ('min_val', 'max_val', 'max_len')}
+        tests = [t for t in g.nodes if t.kind == 'test' and (any(isinstance(a, ast.Attribute) and a.attr in ('min_val', 'max_val', 'max_len') for a in t.walk())
+                                                              or any(isinstance(a, ast.Name) and a.id in bound_aliases for a in t.walk()))
                  and any(isinstance(a, ast.Name) and a.id == v for a in t.walk())]
         if not tests: continue
         nsv += 1
@@ -210,7 +218,9 @@ def run(ctx):
     # ------------------------------------------------------------ CHECK
     av = repo.fn('pony.orm.core', 'Attribute.validate')
     g = cg.cfg(av)
-    pc = nodes_calling(g, lambda c: dotted(c.func) == '%s.py_check' % av.recv)
+    from ..q import alias_map, deref
+    am_ = alias_map(av.node)
+    pc = nodes_calling(g, lambda c: deref(av.node, c.func, am_) == '%s.py_check' % av.recv)
     conv = nodes_calling(g, lambda c: isinstance(c.func, ast.Attribute) and c.func.attr == 'validate')
     ctx.floor('C08-CHECK', len(conv), 1, 'converter.validate call sites in Attribute.validate')
     for cnode in conv:
@@ -218,12 +228,24 @@ def run(ctx):
         ok = bool(pc) and g.must_pass_after(cnode, pc, exits=[g.exit])
         ctx.ob('C08-CHECK.py_check-after-conversion', av, cnode.ast, ok,
                '' if ok else 'a converted value can be returned without applying py_check', node=cnode.ast)
-    for t in [t for t in g.nodes if t.kind == 'test' and norm(t.ast).startswith('%s.py_check is not None' % av.recv)]:
-        ts = [y for y, lab in g.succ[t.id] if lab == 'T']
-        thr = [n for n in g.nodes if n.kind == 'stmt' and g.is_noreturn_stmt(n.ast)]
-        # the test's own condition calls py_check; its true branch must raise
-        ok = g.exit.id not in g.reach(ts)
-        ctx.ob('C08-CHECK.failed-check-raises', av, t.stmt, ok, '' if ok else 'failed py_check does not raise')
+    # a failed check raises: with a py_check given that answers false, no normal return is reachable after the conversion
+    from ..typestate import eval_test
+    pcn = {'%s.py_check' % av.recv} | {n_ for n_, src in am_.items() if src == '%s.py_check' % av.recv}
+    def atom(text, node):
+        t_ = text.replace(' ', '')
+        for nm in pcn:
+            if t_ == nm.replace(' ', '') + 'isNone': return False
+            if t_ == nm.replace(' ', '') + 'isnotNone': return True
+            if t_.startswith(nm + '('): return False
+        return None
+    def edge_ok(x, y, lab):
+        n_ = g.nodes[x]
+        if n_.kind != 'test' or lab not in ('T', 'F'): return True
+        v = eval_test(n_.ast, atom)
+        return v is None or v == (lab == 'T')
+    for cnode in conv:
+        ok = g.exit.id not in g.reach([cnode], edge_ok=edge_ok, include_src=False)
+        ctx.ob('C08-CHECK.failed-check-raises', av, cnode.ast, ok, '' if ok else 'with a py_check that answers false the value is still returned: a failed check does not raise', node=cnode.ast)
     rv = repo.fn('pony.orm.core', 'Required.validate')
     txt = [norm(t.ast) for t in cg.cfg(rv).nodes if t.kind == 'test']
     ok = any("val == ''" in t for t in txt) and any('val is None' in t for t in txt)
